@@ -366,8 +366,10 @@ func (p *Prog) gateAppCallee(c *Ctx, f *Func) {
 		}
 	}
 	var keyV, valV *types.Var
+	var rangeStmt *ast.RangeStmt
 	ast.Inspect(f.Body, func(x ast.Node) bool {
 		if rs, ok := x.(*ast.RangeStmt); ok && SelField(info, rs.X) == vpF {
+			rangeStmt = rs
 			if rs.Key != nil {
 				keyV, _ = identObj(info, rs.Key).(*types.Var)
 			}
@@ -377,54 +379,28 @@ func (p *Prog) gateAppCallee(c *Ctx, f *Func) {
 		}
 		return true
 	})
-	// alternative idiom: comma-ok lookup VersionedPlugins[Atoi(arg)]
+	// alternative idiom: comma-ok lookup VersionedPlugins[Atoi(arg)]; a
+	// function may use both (a fast path in front of the loop), each
+	// successful return is judged against the form it lies behind
+	type lookup struct{ ok, val *types.Var }
+	var lookups []lookup
 	if sv != nil {
-		var okV, valV2 *types.Var
 		for _, m := range g.Nodes {
-			var lhs []ast.Expr
-			var rhs ast.Expr
-			if as, ok := m.Ast.(*ast.AssignStmt); ok && len(as.Lhs) == 2 && len(as.Rhs) == 1 {
-				lhs, rhs = as.Lhs, as.Rhs[0]
-			}
-			if rhs == nil {
+			as, ok := m.Ast.(*ast.AssignStmt)
+			if !ok || len(as.Lhs) != 2 || len(as.Rhs) != 1 {
 				continue
 			}
-			if ix, ok := ast.Unparen(rhs).(*ast.IndexExpr); ok && SelField(info, ix.X) == vpF && identObj(info, ix.Index) == sv {
-				valV2, _ = identObj(info, lhs[0]).(*types.Var)
-				okV, _ = identObj(info, lhs[1]).(*types.Var)
-			}
-		}
-		if okV != nil && valV2 != nil {
-			n, bad := 0, ""
-			for _, m := range g.Nodes {
-				rs, ok := m.Ast.(*ast.ReturnStmt)
-				if !ok || len(rs.Results) != 3 || !isNilIdent(info, rs.Results[2]) {
-					continue
+			if ix, ok := ast.Unparen(as.Rhs[0]).(*ast.IndexExpr); ok && SelField(info, ix.X) == vpF && identObj(info, ix.Index) == sv {
+				v, _ := identObj(info, as.Lhs[0]).(*types.Var)
+				o, _ := identObj(info, as.Lhs[1]).(*types.Var)
+				if v != nil && o != nil {
+					lookups = append(lookups, lookup{o, v})
 				}
-				n++
-				mm := m
-				if !g.OnlyViaEdge(mm, func(e *Edge) bool {
-					at, isAt := edgeAtom(info, e)
-					return isAt && at.Kind == "bool" && at.True && identObj(info, at.X) == okV
-				}) {
-					bad = "a nil error is returned without the announced version being a key of the offered versions"
-				}
-				if identObj(info, rs.Results[0]) != sv || identObj(info, rs.Results[1]) != valV2 {
-					bad = "the returned version / plugin set are not the looked-up key and its map value"
-				}
-			}
-			if n > 0 {
-				if bad == "" {
-					c.R.Hold("R-GATE", p.Pos(f.Node()), f.Name, "G-app/callee", "success only when Atoi(arg) is a key of ClientConfig.VersionedPlugins (comma-ok lookup), returning that key and its value", true)
-				} else {
-					c.R.Violate("R-GATE", p.Pos(f.Node()), f.Name, "G-app/callee", bad, nil)
-				}
-				return
 			}
 		}
 	}
-	if sv == nil || keyV == nil {
-		c.R.Undecided("R-GATE", f.Name, "G-app/callee", "Atoi(param) or range over ClientConfig.VersionedPlugins not found")
+	if sv == nil || (keyV == nil && len(lookups) == 0) {
+		c.R.Undecided("R-GATE", f.Name, "G-app/callee", "Atoi(param) or range over / comma-ok lookup in ClientConfig.VersionedPlugins not found")
 		return
 	}
 	n := 0
@@ -436,6 +412,31 @@ func (p *Prog) gateAppCallee(c *Ctx, f *Func) {
 		}
 		n++
 		mm := m
+		r0, r1 := identObj(info, rs.Results[0]), identObj(info, rs.Results[1])
+		viaLookup := false
+		for _, lk := range lookups {
+			lk := lk
+			if r1 == types.Object(lk.val) && g.OnlyViaEdge(mm, func(e *Edge) bool {
+				at, isAt := edgeAtom(info, e)
+				return isAt && at.Kind == "bool" && at.True && identObj(info, at.X) == lk.ok
+			}) {
+				viaLookup = true
+				if r0 != types.Object(sv) {
+					bad = "the returned version / plugin set are not the looked-up key and its map value"
+				}
+			}
+		}
+		if viaLookup {
+			continue
+		}
+		if keyV == nil {
+			if len(lookups) > 0 && r1 != types.Object(lookups[0].val) {
+				bad = "the returned version / plugin set are not the looked-up key and its map value"
+			} else {
+				bad = "a nil error is returned without the announced version being a key of the offered versions"
+			}
+			continue
+		}
 		if !g.OnlyViaEdge(mm, func(e *Edge) bool {
 			at, isAt := edgeAtom(info, e)
 			if !isAt || at.Kind != "cmp" || at.Op != token.EQL {
@@ -446,16 +447,72 @@ func (p *Prog) gateAppCallee(c *Ctx, f *Func) {
 		}) {
 			bad = "a nil error is returned without the announced version being equal to an offered version"
 		}
-		r0, r1 := identObj(info, rs.Results[0]), identObj(info, rs.Results[1])
 		if !((r0 == keyV || r0 == sv) && r1 == valV && valV != nil) {
 			bad = "the returned version / plugin set are not the matched key and its map value"
+		}
+	}
+	// every offered key is compared: inside the loop over the offered versions
+	// nothing leads back to the loop head before the comparison with the
+	// announced version was made (a filter in front of it makes the client
+	// refuse a version it offered - the plugin was still told it could use it)
+	if keyV != nil && rangeStmt != nil {
+		// go/cfg evaluates X, key and value in the block in front of the loop;
+		// the (empty) loop block that follows is the target of the back edges
+		// and branches into the body
+		pre := g.NodeOf(rangeStmt.X)
+		if kn := g.NodeOf(rangeStmt.Key); kn != nil {
+			pre = kn
+		}
+		if rangeStmt.Value != nil {
+			if vn := g.NodeOf(rangeStmt.Value); vn != nil {
+				pre = vn
+			}
+		}
+		var hn, bn *Node
+		if pre != nil && len(pre.Succs) == 1 {
+			hn = pre.Succs[0].To
+			bn = hn
+		}
+		if hn != nil && bn != nil {
+			isCmp := func(m *Node) bool {
+				for _, e := range m.Succs {
+					at, isAt := edgeAtom(info, e)
+					if !isAt || at.Kind != "cmp" {
+						continue
+					}
+					a, b := identObj(info, at.X), identObj(info, at.Y)
+					if (a == types.Object(sv) && b == types.Object(keyV)) || (a == types.Object(keyV) && b == types.Object(sv)) {
+						return true
+					}
+				}
+				return false
+			}
+			var starts []*Node
+			for _, e := range bn.Succs {
+				// the body branch is the one that can come back to the loop head
+				if _, back := g.Reach([]*Node{e.To}, nil, nil)[hn]; back {
+					starts = append(starts, e.To)
+				}
+			}
+			var st2 []*Node
+			for _, m := range starts {
+				if !isCmp(m) {
+					st2 = append(st2, m)
+				}
+			}
+			seen := g.Reach(st2, isCmp, nil)
+			if _, skips := seen[hn]; skips && len(starts) > 0 {
+				c.R.Violate("R-GATE", p.Pos(rangeStmt), f.Name, "G-app/every offered version is compared", "an iteration over the offered versions can go on to the next version without comparing this one with the version the plugin announced: the list sent to the plugin is built from the same map without that condition, so the plugin may announce a version the client then refuses although a common version exists", p.PathTo(seen, hn))
+			} else if len(starts) > 0 {
+				c.R.Hold("R-GATE", p.Pos(rangeStmt), f.Name, "G-app/every offered version is compared", "no path inside the loop reaches the next iteration without the comparison", true)
+			}
 		}
 	}
 	if n == 0 {
 		bad = "no successful return found"
 	}
 	if bad == "" {
-		c.R.Hold("R-GATE", p.Pos(f.Node()), f.Name, "G-app/callee", "success only under Atoi(arg) == key of ClientConfig.VersionedPlugins, returning that key and its value", true)
+		c.R.Hold("R-GATE", p.Pos(f.Node()), f.Name, "G-app/callee", "success only under Atoi(arg) == key of ClientConfig.VersionedPlugins (range match or comma-ok lookup), returning that key and its value", true)
 	} else {
 		c.R.Violate("R-GATE", p.Pos(f.Node()), f.Name, "G-app/callee", bad, nil)
 	}
